@@ -24,7 +24,7 @@ MANIFEST_INFO = {
     "engine": "D",
     "design_ref": "DESIGN.md section 5, C15",
     "technique": "exhaustive enumeration of Spinner.run histories (function shape x firing time relative to the timeout x leftovers x signal handlers x 1-3 runs per Spinner) on the real SelectReactor under a virtual clock; tie order of simultaneous calls and the instant of an external interrupt are chooser choice points explored by stateless DFS; timeline reference model",
-    "level_text": "Every 1- and 2-run history over 17 function shapes (5 signal/stop-wrapper configurations for single runs) (return/raise/Deferred firing or failing before, at, after the timeout or never/stop requested by the function/a slow callback overrunning both the timeout and a later stop request/re-entry on the same and through a second Spinner) x 5 leftover shapes x clear_junk or not (timeout 2; single runs also with timeouts 0 and 1), 2- and 3-run histories in which the Deferred of a run that ended without it fires or fails before the next run starts or half a time unit into it, and every 3-run history over a reduced alphabet, is executed on one Spinner (on the virtual-time SelectReactor; result shapes x 0-4 leftover calls x selectables also on a task.Clock-based reactor) with every tie order and every interrupt instant (<=1 per run); result, exception type, junk accounting, reactor cleanliness, reactor.stop identity and the three signal handlers are checked against the model after every run.",
+    "level_text": "Every 1- and 2-run history over 21 function shapes (5 signal/stop-wrapper configurations for single runs) (return/raise/Deferred firing or failing before, at, after the timeout or never/stop requested by the function/a slow callback overrunning both the timeout and a later stop request/re-entry on the same and through a second Spinner) x 5 leftover shapes x clear_junk or not (timeout 2; single runs also with timeouts 0 and 1), 2- and 3-run histories in which the Deferred of a run that ended without it fires or fails before the next run starts or half a time unit into it, and every 3-run history over a reduced alphabet, is executed on one Spinner (on the virtual-time SelectReactor; result shapes x 0-4 leftover calls x selectables also on a task.Clock-based reactor) with every tie order and every interrupt instant (<=1 per run); result, exception type, junk accounting, reactor cleanliness, reactor.stop identity and the three signal handlers are checked against the model after every run.",
     "level_note": "The real reactor code runs on a virtual clock (seconds()/doIteration() overridden): the installed wall-clock global reactor is not used because the relative order of 'Deferred fires' and 'timeout fires' could not be owned there. Interrupts are delivered between reactor iterations (every distinct instant), not between two calls due at the same instant.",
 }
 
@@ -57,7 +57,7 @@ KINDS = (
     + [("fire", d) for d in (0, 1, 2, 3)]
     + [("fail", d) for d in (0, 1, 2, 3)]
     + [("stop", d) for d in (1, 2, 3)]
-    + [("firestop", 1), ("failstop", 1), ("busy_stop",), ("crash", 1)]
+    + [("firestop", 1), ("failstop", 1), ("busy_stop",), ("crash", 1), ("fire_cancelall", 1)]
 )
 EXTRAS = ("none", "junk_before", "junk_after", "selectable", "junk_after+selectable")
 SMALL_KINDS = [("ret",), ("fire", 1), ("fail", 1), ("fire", 3), ("stop", 1)]
@@ -105,6 +105,19 @@ def make_function(reactor, spinner, spec, rec, run_index, timeout=None):
         k = kind[0]
         if k == "ret":
             return ("value", run_index)
+        if k == "fire_cancelall":
+            # the function's Deferred fires from a delayed call that first cancels whatever else is
+            # pending in the reactor (a "stop all timers" helper of the code under test)
+            d = rec.deferred = defer.Deferred()
+
+            def cancel_all_then_fire():
+                for c in reactor.getDelayedCalls():
+                    if c.active():
+                        c.cancel()
+                d.callback(("value", run_index))
+
+            rec.calls.append(reactor.callLater(kind[1], cancel_all_then_fire))
+            return d
         if k == "raise":
             raise FnError("run%d" % run_index)
         if k == "raise_base":
@@ -209,7 +222,7 @@ def model_outcomes(spec, run_index, interrupt_at):
         return {("raised", "SystemExit", None)}
     if k == "reenter":
         return {("raised", "ReentryError", None)}
-    if k == "firestop":
+    if k in ("firestop", "fire_cancelall"):
         events.append(((kind[1], 0), val))
     if k == "failstop":
         events.append(((kind[1], 0), err))
@@ -339,6 +352,9 @@ def execute(scenario, chooser):
                     problems.append(("reentry", "%s: re-entrant calls inside the function were %r, expected three refusals" % (where, rec.reenter)))
                 # leftovers: every call the function scheduled either ran or was cancelled and reported as junk
                 junk = spinner.get_junk()
+                if spec[0][0] == "fire_cancelall":
+                    # what the function cancelled itself is not a leftover
+                    rec.calls = [c for c in rec.calls if not (c.cancelled and not any(j is c for j in junk))]
                 for c in rec.calls:
                     if not c.called and not c.cancelled:
                         problems.append(("cleanup", "%s: delayed call %r still pending after run()" % (where, c)))
